@@ -27,6 +27,21 @@ pub static CLOCK_READS: AtomicUsize = AtomicUsize::new(0);
 pub fn enable(on: bool) {
     SEAM_ON.store(on, Ordering::SeqCst);
 }
+
+/// While > 0, file operations are the harness's own (editor model writing files,
+/// oracle reading them) and are neither logged nor faulted.
+static HARNESS_DEPTH: AtomicUsize = AtomicUsize::new(0);
+
+/// Run `f` as the harness: its file-system activity is not attributed to the simulated code.
+pub fn as_harness<T>(f: impl FnOnce() -> T) -> T {
+    HARNESS_DEPTH.fetch_add(1, Ordering::SeqCst);
+    let r = f();
+    HARNESS_DEPTH.fetch_sub(1, Ordering::SeqCst);
+    r
+}
+fn observing() -> bool {
+    SEAM_ON.load(Ordering::Relaxed) && HARNESS_DEPTH.load(Ordering::Relaxed) == 0
+}
 pub fn is_on() -> bool {
     SEAM_ON.load(Ordering::Relaxed)
 }
@@ -312,7 +327,7 @@ fn track(fd: c_int, flags: c_int) {
 
 unsafe fn do_open(dirfd: c_int, path: *const c_char, flags: c_int, mode: mode_t) -> c_int {
     let fd = unsafe { libc::syscall(libc::SYS_openat, dirfd, path, flags, mode as c_uint) as c_int };
-    if is_on() {
+    if observing() {
         if flags & WRITE_FLAGS != 0 {
             unsafe { log_parts(&[b"W ", cstr_bytes(path)]) };
         }
@@ -358,56 +373,56 @@ pub unsafe extern "C" fn close(fd: c_int) -> c_int {
 #[unsafe(no_mangle)]
 pub unsafe extern "C" fn mkdir(path: *const c_char, mode: mode_t) -> c_int {
     let r = unsafe { libc::syscall(libc::SYS_mkdirat, libc::AT_FDCWD, path, mode as c_uint) as c_int };
-    if is_on() && r == 0 {
+    if observing() && r == 0 {
         unsafe { log_parts(&[b"MK ", cstr_bytes(path)]) };
     }
     r
 }
 #[unsafe(no_mangle)]
 pub unsafe extern "C" fn unlink(path: *const c_char) -> c_int {
-    if is_on() {
+    if observing() {
         unsafe { log_parts(&[b"RM ", cstr_bytes(path)]) };
     }
     unsafe { libc::syscall(libc::SYS_unlinkat, libc::AT_FDCWD, path, 0) as c_int }
 }
 #[unsafe(no_mangle)]
 pub unsafe extern "C" fn unlinkat(dirfd: c_int, path: *const c_char, flags: c_int) -> c_int {
-    if is_on() {
+    if observing() {
         unsafe { log_parts(&[b"RM ", cstr_bytes(path)]) };
     }
     unsafe { libc::syscall(libc::SYS_unlinkat, dirfd, path, flags) as c_int }
 }
 #[unsafe(no_mangle)]
 pub unsafe extern "C" fn rmdir(path: *const c_char) -> c_int {
-    if is_on() {
+    if observing() {
         unsafe { log_parts(&[b"RM ", cstr_bytes(path)]) };
     }
     unsafe { libc::syscall(libc::SYS_unlinkat, libc::AT_FDCWD, path, libc::AT_REMOVEDIR) as c_int }
 }
 #[unsafe(no_mangle)]
 pub unsafe extern "C" fn rename(from: *const c_char, to: *const c_char) -> c_int {
-    if is_on() {
+    if observing() {
         unsafe { log_parts(&[b"MV ", cstr_bytes(from), b"\t", cstr_bytes(to)]) };
     }
     unsafe { libc::syscall(libc::SYS_renameat, libc::AT_FDCWD, from, libc::AT_FDCWD, to) as c_int }
 }
 #[unsafe(no_mangle)]
 pub unsafe extern "C" fn renameat(fd1: c_int, from: *const c_char, fd2: c_int, to: *const c_char) -> c_int {
-    if is_on() {
+    if observing() {
         unsafe { log_parts(&[b"MV ", cstr_bytes(from), b"\t", cstr_bytes(to)]) };
     }
     unsafe { libc::syscall(libc::SYS_renameat, fd1, from, fd2, to) as c_int }
 }
 #[unsafe(no_mangle)]
 pub unsafe extern "C" fn symlink(target: *const c_char, link: *const c_char) -> c_int {
-    if is_on() {
+    if observing() {
         unsafe { log_parts(&[b"W ", cstr_bytes(link)]) };
     }
     unsafe { libc::syscall(libc::SYS_symlinkat, target, libc::AT_FDCWD, link) as c_int }
 }
 #[unsafe(no_mangle)]
 pub unsafe extern "C" fn link(from: *const c_char, to: *const c_char) -> c_int {
-    if is_on() {
+    if observing() {
         unsafe { log_parts(&[b"W ", cstr_bytes(to)]) };
     }
     unsafe { libc::syscall(libc::SYS_linkat, libc::AT_FDCWD, from, libc::AT_FDCWD, to, 0) as c_int }
@@ -461,7 +476,7 @@ fn io_decide() -> (u8, u64) {
 #[unsafe(no_mangle)]
 pub unsafe extern "C" fn write(fd: c_int, buf: *const c_void, count: size_t) -> ssize_t {
     let mut n = count;
-    if is_on() && (0..1024).contains(&fd) && TRACKED_W[fd as usize].load(Ordering::Relaxed) {
+    if observing() && (0..1024).contains(&fd) && TRACKED_W[fd as usize].load(Ordering::Relaxed) {
         match io_decide() {
             (2, _) => {
                 IO_EINTRS.fetch_add(1, Ordering::Relaxed);
@@ -481,7 +496,7 @@ pub unsafe extern "C" fn write(fd: c_int, buf: *const c_void, count: size_t) -> 
 #[unsafe(no_mangle)]
 pub unsafe extern "C" fn read(fd: c_int, buf: *mut c_void, count: size_t) -> ssize_t {
     let mut n = count;
-    if is_on() && (0..1024).contains(&fd) && TRACKED_R[fd as usize].load(Ordering::Relaxed) {
+    if observing() && (0..1024).contains(&fd) && TRACKED_R[fd as usize].load(Ordering::Relaxed) {
         match io_decide() {
             (2, _) => {
                 IO_EINTRS.fetch_add(1, Ordering::Relaxed);
